@@ -201,6 +201,9 @@ def check_worker_exit(rep, fl, rule="R12.3"):
         else:
             # async: the arm body is reached via the select! result; the close handler / `return` must not be in a cycle
             hc = calls_to(loop, proc + "::handle_close_event")
+            if proc != fl.pproc and not hc and facts.body(proc + "::handle_close_event", required=False) is None:
+                # the stop arm written out in the loop: it is where the worker closes its own stop channel
+                hc = [(bi_, t_) for bi_, t_ in loop.calls() if callee_matches(loop.callee_of(t_), "Receiver::close") and canon_self(loop, norm(loop.call_args(t_)[0])) == norm(F(V("self"), stopfield))]
             if proc == fl.pproc:
                 # `drop(self); return;` : find a return-reaching block that is outside the loop and reachable from the select
                 outs = [b_ for b_ in loop.live_blocks() if not loop.in_loop(b_) and b_ != 0 and any(loop.in_loop(p) for p in loop.preds(b_))]
@@ -628,9 +631,19 @@ def check_drained_on_stop(rep, fl, rule, rxname, what):
     rx = norm(F(V("self"), rxname))
     if fl.name == "async":
         # async-channel keeps queued messages alive while any Sender exists: the stop arm must drain after closing the receiver
-        hc = fl.proc_fn("handle_close_event")
-        closes = [(bi, t) for bi, t in hc.calls() if callee_matches(hc.callee_of(t), "Receiver::close") and norm(hc.call_args(t)[0]) == rx]
-        drains = [(bi, t) for bi, t, ch in recv_sites(hc) if ch == rx and hc.in_loop(bi)]
+        hc = fl.proc_fn("handle_close_event", required=False)
+        if hc is None:
+            # the stop arm written out in the worker loop itself
+            sp_ = facts.body(fl.processor + "::spawn")
+            for x in descendants(facts, sp_):
+                if x is not sp_ and user_code(x) and any(ch == norm(F(V("self"), "stop_rx")) for _, _, ch in recv_sites(x)):
+                    hc = x
+        if hc is None:
+            rep.missing(rule, fl, "async stop arm (handle_close_event / the loop that receives from stop_rx)")
+            return
+        closes = [(bi, t) for bi, t in hc.calls() if callee_matches(hc.callee_of(t), "Receiver::close") and canon_self(hc, norm(hc.call_args(t)[0])) == rx]
+        # (the receives that can follow the close: in a loop body the main select receives from the same channel)
+        drains = [(bi, t) for bi, t, ch in recv_sites(hc) if ch == rx and hc.in_loop(bi) and (not closes or bi in hc.reachable(closes[0][0]))]
         okd = bool(closes) and bool(drains) and all(block_dominates(hc, closes[0][0], d[0]) for d in drains) and all(drain_is_exhaustive(hc, d[0], d[1]) for d in drains)
         rep.check(okd, rule, fl, hc, "drain %s after close" % rxname, "the stop arm closes %s (later sends fail) and then drains it, so a queued %s is dropped (and its waiter released)" % (rxname, what),
                   "the async stop arm closes %s but never drains it: async-channel keeps queued messages alive while the cache handle holds a Sender, "
